@@ -7,7 +7,10 @@ d = os.path.abspath(sys.argv[1]); checks = sys.argv[2:]
 meta = json.load(open(os.path.join(d, 'meta.json')))
 def sh(cmd, **kw):
     p = subprocess.run(cmd, shell=True, stdout=subprocess.PIPE, stderr=subprocess.STDOUT, text=True, **kw); return p.returncode, p.stdout
-assert sh('git -C /repo status --short')[1].strip() == '', '/repo not clean'
+patch = os.path.join(d, 'patch.diff')
+touched = [l.split(' b/')[-1].strip() for l in open(patch) if l.startswith('diff --git ')]
+dirty = [l for l in sh('git -C /repo status --short')[1].split('\n') if l.strip() and l[3:].strip() in touched]
+assert not dirty, '/repo has local changes in files the patch touches: %r' % dirty
 demo = os.path.join(d, 'demo.py')
 rc0, out0 = sh('/venv/bin/python %s /repo' % demo)
 rc, out = sh('git -C /repo apply %s' % os.path.join(d, 'patch.diff'))
@@ -26,7 +29,11 @@ try:
             caught[c] = {'exit': rcc, 'violation_lines': v[:3], 'summary': outc.strip().split('\n')[-1][:300]}
         res['checks'] = caught
 finally:
-    sh('git -C /repo checkout -- . && git -C /repo clean -fdq src test')
+    # undo exactly the patch (other files of the working tree are left alone)
+    if res.get('applies'):
+        rcr, _ = sh('git -C /repo apply -R %s' % patch)
+        if rcr != 0:
+            sh('git -C /repo checkout -- ' + ' '.join(touched))
 res['confirmed'] = bool(res.get('applies') and res['demo_clean_rc'] == 0 and res.get('demo_patched_rc', 0) != 0 and '129 passed' in res.get('suite_with_patch', ''))
 meta['verification'] = res
 meta['caught_by'] = sorted(c for c, r in res.get('checks', {}).items() if r['exit'] == 1 and r['violation_lines'])
